@@ -142,16 +142,24 @@ func (d *scriptDialer) Dial(network, address string) (net.Conn, error) {
 		mu.Lock()
 		base := len(p.result.got)
 		mu.Unlock()
+		gotAny := false
 		for {
+			// the client's reaction to the last scripted line may take a while on a loaded machine: wait up to 3 s
+			// for its first line (or the close), then for 400 ms of silence
+			window := 400 * time.Millisecond
+			if !gotAny {
+				window = 3 * time.Second
+			}
 			select {
 			case _, ok := <-lines:
+				gotAny = true
 				if !ok {
 					mu.Lock()
 					p.result.afterAck = append([]string{}, p.result.got[base:]...)
 					mu.Unlock()
 					return
 				}
-			case <-time.After(400 * time.Millisecond):
+			case <-time.After(window):
 				mu.Lock()
 				p.result.afterAck = append([]string{}, p.result.got[base:]...)
 				mu.Unlock()
